@@ -50,10 +50,13 @@ REG['C01'] = {
 REG['C03'] = {
     'level': 'proof',
     'design_ref': '5/C03',
-    'technique': 'Verus on LunarMonth::next / LunarYear::get_months extracted verbatim (uninterpreted leap table) + leaf contract of LunarMonth::new executed over all lunations',
+    'technique': 'Verus on LunarMonth::next / LunarYear::get_months extracted verbatim (uninterpreted leap table) + Kani on the acceptance and index rule of LunarMonth::new (arbitrary leap configuration) + leaf contract of LunarMonth::new (astronomy) executed over all lunations',
     'level_text': 'Deductive part (proof, all inputs, any leap table): month stepping moves the absolute month ordinal by exactly n for every n and every assignment of leap months, the decoded month/leap flag is the one at that position (leap month directly after its twin), from_ym is never refused, next(n).next(-n) is the identity, a year lists exactly its 12/13 months in order. Leaf part (bounded, exhaustive execution, NOT proof): LunarMonth::new over all 123,684 lunations of years 0..9999 - 29/30 days, abutting months incl. year ends, 353-355/383-385 days, month/day counts == new-year distance.',
     'level_note': 'assumed (class L, checked by exhaustive execution each run): contract of LunarMonth::new / LunarYear::get_leap_month (astronomy + packed table); LunarMonth::from_ym == new (cache wrapper, see C10); Verus/Z3 trusted; extraction drops pub/docs and maps format! to an opaque message',
     'functions': ['LunarMonth::next', 'LunarMonth::get_month_with_leap', 'LunarMonth::get_year', 'LunarYear::new', 'LunarYear::from_year', 'LunarYear::next', 'LunarYear::get_year', 'LunarYear::get_month_count', 'LunarYear::get_months', 'LunarMonth::new (leaf)', 'LunarYear::get_leap_month (leaf)'],
+    'K': [
+        dict(id='c03_k_month_new_index', fn='LunarMonth::new', clause='accepted <=> month in 1..12 or minus the leap month of the year; index in year == month - 1 (+1 for the leap month and every month after it); fields stored as given - for EVERY leap configuration (leap table, solstice and new-moon instants are arbitrary answers of stubs)'),
+    ],
     'V': [
         dict(id='c03_month_step', template='verus/c03_month_step.rs', twin_quick=True,
              twin=[('r.ord() == self.ord() + n,', 'r.ord() == self.ord() + n + 1,')],
@@ -95,7 +98,8 @@ REG['C06'] = {
 }
 
 REG['C02'] = {
-    'K': [dict(id='c02_k_lunar_to_solar', fn='LunarDay::get_solar_day', clause='jdn(result) == first day number of the month + day - 1, valid date, memoised answer identical (caller sees only the contract of JulianDay::get_solar_time, noon form; that contract is proved in the thorough tier of C01)')],
+    'K': [dict(id='c02_k_lunar_order', fn='LunarDay::is_before / is_after / ==', clause='order and equality of two arbitrary well-formed lunar days == order of (year, position of the month in the year, day): a leap month sorts directly after its namesake, for every leap configuration'),
+          dict(id='c02_k_lunar_to_solar', fn='LunarDay::get_solar_day', clause='jdn(result) == first day number of the month + day - 1, valid date, memoised answer identical (caller sees only the contract of JulianDay::get_solar_time, noon form; that contract is proved in the thorough tier of C01)')],
     'level': 'proof',
     'design_ref': '5/C02',
     'technique': 'Verus on SolarDay::get_lunar_day extracted verbatim (uninterpreted tiling month table) + bijection/order lemmas + exhaustive execution of both conversions over every date',
@@ -152,10 +156,15 @@ REG['C11'] = {
         dict(id='c11_k_month_next', fn='SolarMonth::next', clause='12*year+month-1 moves by exactly n'),
         dict(id='c06_k_next', fn='SolarTerm::next', clause='24*year+index moves by exactly n'),
         dict(id='c08_k_month_next', thorough_only=True, fn='SixtyCycleMonth::next', clause='12*year + index moves by exactly n (|n| <= 300)'),
+        dict(id='c11_k_div_euclid_12', fn='isize::div_euclid (std)', clause='the assumed Verus specification of div_euclid for the divisor 12: floor division, remainder in 0..12'),
         dict(id='c11_k_lunar_hour_carry', fn='LunarHour::next', clause='hour + 2n == 24 * (days handed to LunarDay::next) + new hour, 0 <= new hour < 24, minute and second kept, every hour and |n| < 2^40 (day step and constructor replaced by recording stubs)'),
         dict(id='c11_k_jd_next', thorough_only=True, fn='JulianDay::next / subtract', clause='f64 addition of n days is exact for |n| < 2^31 on half-integral dates'),
     ],
     'V': [
+        dict(id='c11_month_next', template='verus/c11_month_next.rs', twin_quick=True,
+             twin=[('ensures r.wf(), r.pos() == self.pos() + n,', 'ensures r.wf(), r.pos() == self.pos() + n + 12,')],
+             clause='SixtyCycleMonth::next moves the position 12*year + index by exactly n for every n whose target year stays in -1..=9999; the month pillar moves by n; get_index_in_year counts from the Yin month',
+             paired_leaf=[dict(id='c11_month_search', check='c11_linear', range=(1, 9998), chunks=32)]),
         dict(id='c11_index_of', template='verus/c11_index_of.rs', twin_quick=True,
              twin=[('ensures r == (index as int) % (size as int), 0 <= r < size,', 'ensures r == (index as int) % (size as int) + 1, 0 <= r < size,')],
              clause='index_of(index, size) == index mod size (Euclidean) for all isize/usize; group laws of modular stepping'),
@@ -205,9 +214,9 @@ REG['C13'] = {
     'level': 'proof',
     'design_ref': '5/C13',
     'technique': 'Kani on the civil containers (all years/months symbolic, constant-bound loops with unwinding assertions) + Verus on LunarYear::get_months + execution for lunar/sexagenary lists',
-    'level_text': 'Deductive part: a civil year lists 2 half-years, 4 seasons, 12 months that nest correctly; a month lists exactly the dates that exist in it, in order, count == day count (incl. October 1582) for every year and month (Kani); a lunar year lists exactly its 12/13 months in order (Verus, C03 unit). Leaf part (execution): lunar month -> days, lunar/sexagenary day -> 13/12 double-hour slots, sexagenary year -> months, sexagenary month -> days from its Jie day to the day before the next.',
+    'level_text': 'Deductive part: a civil year lists 2 half-years, 4 seasons, 12 months that nest correctly; a month lists exactly the dates that exist in it, in order, count == day count (incl. October 1582) for every year and month (Kani); a lunar year lists exactly its 12/13 months in order and a lunar month its days 1..day count (Verus, C03 unit); a lunar day is accepted exactly for 1..day count, a lunar hour for valid clock components, and a lunar day asks for exactly the 13 slots 0:00, 1:00, 3:00, .., 23:00 (Kani); a sexagenary year lists its 12 months and a sexagenary month the days from its Jie day to the day before the next (Verus, any increasing Jie-day table). a sexagenary day lists the 12 double-hour instants from 23:00 of the previous day (Verus). Leaf part (execution): the same lists on the real objects.',
     'level_note': 'lunar/sexagenary day and hour objects (RefCell, f64, name tables) are outside both verifiers: execution only, labelled bounded',
-    'functions': ['SolarYear::get_months/get_seasons/get_half_years', 'SolarHalfYear::get_months/get_seasons', 'SolarSeason::get_months', 'SolarMonth::get_season/get_days', 'LunarYear::get_months', 'LunarMonth::get_days', 'LunarDay::new', 'LunarHour::new', 'LunarDay::get_hours', 'SixtyCycleDay::get_hours (leaf)', 'SixtyCycleYear::get_months (leaf)', 'SixtyCycleMonth::get_days (leaf)'],
+    'functions': ['SolarYear::get_months/get_seasons/get_half_years', 'SolarHalfYear::get_months/get_seasons', 'SolarSeason::get_months', 'SolarMonth::get_season/get_days', 'LunarYear::get_months', 'LunarMonth::get_days', 'LunarDay::new', 'LunarHour::new', 'LunarDay::get_hours', 'SixtyCycleYear::get_months', 'SixtyCycleMonth::get_days', 'SixtyCycleDay::get_hours'],
     'K': [
         dict(id='c13_k_year_parts', fn='SolarYear / SolarHalfYear / SolarSeason lists', clause='2/4/12 parts in order, nesting correct'),
         dict(id='c13_k_month_days', fn='SolarMonth::get_days', clause='lists exactly the existing dates of the month in order; count == month length',
@@ -218,6 +227,10 @@ REG['C13'] = {
         dict(id='c13_k_lunar_day_hours', fn='LunarDay::get_hours', clause='asks for exactly the 13 slots 0:00, 1:00, 3:00, ..., 23:00 of its own day, in order (constructor replaced by a recording stub)'),
     ],
     'V': [
+        dict(id='c13_sixty_lists', template='verus/c13_sixty_lists.rs', twin_quick=True,
+             twin=[('ensures r@.len() == 12, forall|j: int| 0 <= j < 12 ==> (#[trigger] r@[j]).pos() == 12 * self.year + j,', 'ensures r@.len() == 12, forall|j: int| 0 <= j < 12 ==> (#[trigger] r@[j]).pos() == 12 * self.year + j + 1,')],
+             clause='SixtyCycleYear::get_months lists exactly positions 12*year..12*year+11 in order; SixtyCycleMonth::get_days lists exactly the days from its Jie day to the day before the next Jie day, in order (any strictly increasing Jie-day table); SixtyCycleDay::get_hours lists exactly the 12 double-hour instants from 23:00 of the previous day, 7200 s apart',
+             paired_leaf=[dict(id='c13_search', check='c13_lunar', range=(0, 9998), chunks=32)]),
         dict(id='c03_month_step', template='verus/c03_month_step.rs', clause='LunarYear::get_months lists exactly ordinals mb(y)..mb(y)+msize(y)-1 in order; LunarMonth::get_days lists exactly days 1..day_count of the month in order'),
     ],
     'L': [
@@ -263,6 +276,10 @@ REG['C08'] = {
     'explanation': 'bounded stand-in: exhaustive execution of the day-view contract over all 3.65 M dates, boundary-biased execution of the time view; term-search obligations are proved in C06',
     'functions': ['SixtyCycleDay::from_solar_day', 'SixtyCycleHour::from_solar_time', 'SixtyCycleYear::get_first_month', 'LunarMonth::get_sixty_cycle', 'SixtyCycleMonth::next / get_index_in_year', 'SolarDay::get_term / SolarTime::get_term (C06 unit)'],
     'V': [
+        dict(id='c11_month_next', template='verus/c11_month_next.rs', twin_quick=True,
+             twin=[('ensures r.wf(), r.pos() == self.pos() + n,', 'ensures r.wf(), r.pos() == self.pos() + n + 12,')],
+             clause='SixtyCycleMonth::next moves the position 12*year + index by exactly n for every n whose target year stays in -1..=9999; the month pillar moves by n; get_index_in_year counts from the Yin month',
+             paired_leaf=[dict(id='c08_month_search', check='c11_linear', range=(1, 9998), chunks=32)]),
         dict(id='c06_term_search', template='verus/c06_term_search.rs', clause='the governing term of a date / instant is the latest one starting on or before it (the month pillar switches exactly at Jie days / instants)'),
     ],
     'L': [
@@ -367,11 +384,17 @@ REG['C17'] = {
           dict(id='c17_k_hour_twelve_star', thorough_only=True, fn='SixtyCycleHour::get_twelve_star', clause='hour spirits start at the branch fixed by the day branch; all 60 x 60 pairs')],
     'level': 'other',
     'design_ref': '5/C17',
-    'technique': 'Kani on the index arithmetic of the day officer, twelve spirits, six-day star, minor Ren, year and month nine stars (real bodies, index-faithful cheap constructors) + the defining recurrences executed exhaustively over every civil date, every lunar year and every (year branch, month) pair',
-    'level_text': 'Deductive part (Kani, all pillar pairs / all years): day officer == (day branch - month branch) mod 12 with Jian <=> equal, twelve spirits of day and hour, six-day star, minor Ren, year star, month star. Bounded part (exhaustive execution over finite day/year domains, incl. the series that need term days): day officer == (day branch - month branch) mod 12 (Jian <=> equal) and +1 per day within a sexagenary month; twelve spirits start at the branch fixed by the month (hour: day) branch; 28 mansions +1 per day with luminary == weekday; six-day star (|month| + day - 2) mod 6; moon phase; minor Ren; year nine star descending from 1864 = 1, month star by branch group, day star turning at the Jiazi days nearest the solstices, hour star. The formulas are one-line index arithmetic wrapped in name-table objects (17 s per Kani harness and format!-bound), so the finite domains are enumerated by execution instead.',
+    'technique': 'Kani on the index arithmetic of the day officer, twelve spirits, six-day star, minor Ren, year and month nine stars (real bodies, index-faithful cheap constructors) + Verus on the day and hour nine stars (real bodies, uninterpreted term-day table) + the defining recurrences executed exhaustively over every civil date, every lunar year and every (year branch, month) pair',
+    'level_text': 'Deductive part (Kani, all pillar pairs / all years): day officer == (day branch - month branch) mod 12 with Jian <=> equal, twelve spirits of day and hour, six-day star, minor Ren, year star, month star; (Verus, every day and any term table) day star of both views by the solstice-turning rule, hour star of the sexagenary-hour view. Bounded part (exhaustive execution over finite day/year domains, incl. the series that need term days): day officer == (day branch - month branch) mod 12 (Jian <=> equal) and +1 per day within a sexagenary month; twelve spirits start at the branch fixed by the month (hour: day) branch; 28 mansions +1 per day with luminary == weekday; six-day star (|month| + day - 2) mod 6; moon phase; minor Ren; year nine star descending from 1864 = 1, month star by branch group, day star turning at the Jiazi days nearest the solstices, hour star. The formulas are one-line index arithmetic wrapped in name-table objects (17 s per Kani harness and format!-bound), so the finite domains are enumerated by execution instead.',
     'level_note': 'exhaustive over dates 0002..9998 and years -1..9999; hours: 12 double-hours of the 1st and 15th of every month; known findings in the reform-year windows (consequence of C03); LunarMonth month star is checked only up to the leap month (after it the deprecated lunar-month pillar is shifted by upstream design), SixtyCycleMonth for all months',
     'explanation': 'exhaustive execution of the recurrence contracts over their finite domains',
     'functions': ['SixtyCycleDay::get_duty / get_twelve_star / get_twenty_eight_star / get_nine_star', 'LunarDay::get_six_star / get_phase / get_minor_ren / get_nine_star', 'LunarYear::get_nine_star', 'LunarMonth::get_nine_star', 'SixtyCycleMonth::get_nine_star', 'SixtyCycleHour::get_twelve_star / get_nine_star', 'LunarHour::get_twelve_star / get_nine_star'],
+    'V': [
+        dict(id='c17_day_star', template='verus/c17_day_star.rs', twin_quick=True,
+             twin=[('else if n >= s0 && n < w1 { (8 - (n - s0)) % 9 }', 'else if n >= s0 && n < w1 { (9 - (n - s0)) % 9 }')],
+             clause='SixtyCycleDay::get_nine_star and LunarDay::get_nine_star == the solstice-turning rule (forward from the Jiazi day nearest the winter solstice, backward from the one nearest the summer solstice) over any term-day table; SixtyCycleHour::get_nine_star / get_index_in_day == the hour-star rule',
+             paired_leaf=[dict(id='c17_search', check='c17_day_series', range=(2, 9997), chunks=32)]),
+    ],
     'L': [
         dict(id='c17_day_series', check='c17_day_series', range=(2, 9998), chunks=64, exhaustive=True, domain='every civil date 0002..9998; all 24 hours of two (seed-rotated) days of each month', clause='daily and hourly recurrences'),
         dict(id='c17_year_month_stars', check='c17_year_month_stars', range=(-1, 9999), chunks=16, exhaustive=True, domain='every year -1..9999 and every (year, month)', clause='year / month flying stars'),
@@ -395,11 +418,17 @@ REG['C18'] = {
 REG['C20'] = {
     'level': 'other',
     'design_ref': '5/C20',
-    'technique': 'exhaustive / bounded execution of festival and holiday lookup contracts in both directions over the stated ranges (regex-based code: no deductive part)',
-    'level_text': 'No deductive part (every function goes through regex over string tables); index_of used by the stepping carry is proved in C11. Bounded part (execution): every civil date 1900..2100 and every (year 1..9998, index) for civil festivals; lunar festivals by index fall on a day whose own lookup returns them (or the earlier-listed one), fixed dates, term days, New Year eve = last day (29/30) of the lunar year; every lunar date 1900..2100; all holiday records 2000..2030: real dates, returned for that date only, stepping visits them in strictly increasing order and next(k) lands k places on.',
+    'technique': 'Verus on SolarFestival::next / LunarFestival::next (real bodies, lookup uninterpreted) + exhaustive / bounded execution of festival and holiday lookup contracts in both directions over the stated ranges (the lookups are regex-based code)',
+    'level_text': 'Deductive part (Verus, real bodies, every n): stepping a civil / lunar festival by n looks up position year*len + index + n, i.e. (floor(p/len), p mod len) with len the real list length (10 / 13), through the real AbstractCulture::index_of; the lookup by (year, index) itself goes through regex over string tables and is uninterpreted there. Bounded part (execution): every civil date 1900..2100 and every (year 1..9998, index) for civil festivals; lunar festivals by index fall on a day whose own lookup returns them (or the earlier-listed one), fixed dates, term days, New Year eve = last day (29/30) of the lunar year; every lunar date 1900..2100; all holiday records 2000..2030: real dates, returned for that date only, stepping visits them in strictly increasing order and next(k) lands k places on.',
     'level_note': 'lookups go through regex over string tables (L-RX): execution only; known findings: New Year eve / Laba in the reform-year windows (consequence of C03)',
     'explanation': 'bounded / exhaustive execution of the lookup contracts over the ranges stated in the property',
-    'functions': ['SolarFestival::from_ymd / from_index / next', 'LunarFestival::from_ymd / from_index / next', 'LegalHoliday::from_ymd / next'],
+    'functions': ['SolarFestival::next', 'LunarFestival::next', 'AbstractCulture::index_of', 'SolarFestival::from_ymd / from_index (leaf)', 'LunarFestival::from_ymd / from_index (leaf)', 'LegalHoliday::from_ymd / next (leaf)'],
+    'V': [
+        dict(id='c20_festival_step', template='verus/c20_festival_step.rs', twin_quick=True,
+             twin=[('p >= 0 ==> r == solar_lookup(p / 10, p % 10) }),', 'p >= 0 ==> r == solar_lookup(p / 10 + 1, p % 10) }),')],
+             clause='festival stepping looks up (floor((year*len+index+n)/len), (..) mod len) for every n',
+             paired_leaf=[dict(id='c20_search', check='c20_festivals', range=(1, 9998), chunks=32)]),
+    ],
     'L': [
         dict(id='c20_festivals', check='c20_festivals', range=(1, 9998), chunks=64, domain='civil dates 1900..2100, (year 1..9998, index), lunar dates 1900..2100, stepping samples', clause='festival lookups consistent in both directions; stepping n places along the list'),
         dict(id='c20_holidays', check='c20_holidays', range=(0, 15), chunks=16, exhaustive=True, domain='every civil date 2000..2030; every record x step counts +-1..60, +-100, +-200', clause='holiday table: real dates, membership, strictly increasing stepping'),
